@@ -1,4 +1,7 @@
+mod buildsim;
 mod clock;
+mod dicfmt;
+mod sink;
 mod dictfac;
 mod harness;
 mod proj;
@@ -20,6 +23,7 @@ fn main() {
     let opts = parse_opts(&args[2..]);
     let exit = match args[1].as_str() {
         "toksim" => run_batch(&toksim::TokSim, &opts).exit,
+        "buildsim" => run_batch(&buildsim::BuildSim, &opts).exit,
         "dbgtok" => {
             // vsim dbgtok --replay file --text T --mode A
             let doc: serde_json::Value = serde_json::from_slice(&std::fs::read(opts.replay.as_ref().unwrap()).unwrap()).unwrap();
@@ -37,6 +41,18 @@ fn main() {
                 println!("{} {} wid={:?}", m.begin(), m.end(), m.word_id());
                 println!("  {:?}", m.surface());
             }
+            0
+        }
+        "dumpcase" => {
+            // vsim dumpcase --engine buildsim --run N  -> prints the generated case
+            let run: u64 = opts.extra.get("run").and_then(|s| s.parse().ok()).unwrap_or(0);
+            use harness::Engine;
+            let v = match opts.extra.get("engine").map(|s| s.as_str()).unwrap_or("") {
+                "buildsim" => serde_json::to_value(buildsim::BuildSim.generate(opts.seed, run)).unwrap(),
+                "toksim" => serde_json::to_value(toksim::TokSim.generate(opts.seed, run)).unwrap(),
+                _ => serde_json::Value::Null,
+            };
+            println!("{}", serde_json::to_string_pretty(&serde_json::json!({"case": v, "run": run})).unwrap());
             0
         }
         "worldcheck" => {
